@@ -264,7 +264,23 @@ func init() {
 		st[1] = ""
 		return nil
 	})
-	reg("(*strings.Builder).Grow", func(ip *Interp, fr *frame, args []Value) Value { return nil })
+	reg("(*strings.Builder).Grow", func(ip *Interp, fr *frame, args []Value) Value {
+		n := asTerm(args[1])
+		if !n.IsConst() {
+			if ip.ex.Branch(ip.ts.Cmp(OpSlt, n, Const(64, 0))) {
+				panic(targetPanic{Iface{t: types.Typ[types.String], v: "strings.Builder.Grow: negative count"}})
+			}
+			if ip.ex.Branch(ip.ts.Cmp(OpUlt, Const(64, maxAllocBytes), n)) {
+				ip.throw("makeslice: len out of range")
+			}
+			ip.noteAlloc("strings.Builder.Grow", n)
+		} else if n.ConstInt() < 0 {
+			panic(targetPanic{Iface{t: types.Typ[types.String], v: "strings.Builder.Grow: negative count"}})
+		} else {
+			ip.noteAllocConst("strings.Builder.Grow", int(n.k))
+		}
+		return nil
+	})
 
 	// ---- strconv ----
 	reg("strconv.FormatInt", func(ip *Interp, fr *frame, args []Value) Value {
